@@ -90,7 +90,10 @@ func TransformModuleFilesToModel( //nolint:funlen,gocognit,cyclop
 		}
 
 		for _, typeDef := range mdl.GetTypeDefinitions() {
-			_, extension := typeDefExtensions[typeDef.GetType()]
+			// a definition is an extension only if it is the very definition the parser recorded as one,
+			// so that a type may be defined and extended in the same file
+			extendedTypeDef, extension := typeDefExtensions[typeDef.GetType()]
+			extension = extension && extendedTypeDef == typeDef
 			if slices.Contains(types, typeDef.GetType()) && !extension {
 				lineIndex := utils.GetTypeLineNumber(typeDef.GetType(), lines)
 				line, col := utils.ConstructLineAndColumnData(lines, lineIndex, typeDef.GetType())
